@@ -1,7 +1,7 @@
 EXPLANATION = ('C01 (lexical layer): Parser.cpp str::strip_comments / find_terminator / trim / fast_clean / del_after_first_slash and RawRecord.cpp splitSingleRecordString are executed on symbolic ASCII text; '
   'layout rewrites (padding, trailing comments, separator kind and run length, text after the slash) are shown to leave the cleaned text / token sequence unchanged, strip_comments is compared with a quote-aware reference.')
 BOUNDS = 'every 7-bit text of up to 4 bytes (thorough: 6) per line plus the inserted layout bytes (symbolic); two tokens of 2+1 bytes for the tokeniser'
-OUTSIDE = 'keyword recognition and size-class dispatch, INCLUDE/PATHS handling, keyword-name case folding, star-token expansion and item scanning (n*v, n*), double/UDA token conversion, whole decks; bytes >= 0x80 (the 7-bit classification tables are documented behaviour)'
+OUTSIDE = 'keyword recognition and size-class dispatch, INCLUDE/PATHS handling, keyword lookup after case folding, double/UDA token conversion, whole decks; bytes >= 0x80 (the 7-bit classification tables are documented behaviour)'
 ASSUMPTIONS = ['std::string/std::deque executed from libstdc++ headers']
 def jobs(tier):
     n = 4 if tier == 'quick' else 6
@@ -9,6 +9,7 @@ def jobs(tier):
     for ent in ('h_strip_comments', 'h_clean_padding', 'h_clean_comment', 'h_clean_linewise', 'h_after_slash'):
         out.append(dict(name=ent[2:], src='h_layout.cpp', defs={'HN': n if ent != 'h_clean_linewise' else min(n, 4)}, entry=ent, fp='real', loopmax=400, maxsteps=4000000, bounds='text <= %d bytes' % n))
     out.append(dict(name='split_separators', src='h_layout.cpp', defs={'HN': 4}, entry='h_split_separators', fp='real', loopmax=400, maxsteps=4000000, bounds='tokens of 2 and 1 bytes, 3 symbolic separators'))
+    out.append(dict(name='deck_name', src='h_layout.cpp', defs={'HN': 3 if tier == 'quick' else 4}, entry='h_deck_name', tus=['opm/common/utility/String.cpp'], fp='real', loopmax=400, maxsteps=4000000, bounds='text <= 3 bytes (thorough 4), any subset of letters in the other case'))
     STUS = ['opm/input/eclipse/Parser/ParserRecord.cpp', 'opm/input/eclipse/Parser/ParserItem.cpp', 'opm/input/eclipse/Parser/raw/RawRecord.cpp', 'opm/input/eclipse/Parser/raw/StarToken.cpp',
             'opm/input/eclipse/Parser/ParseContext.cpp', 'opm/input/eclipse/Parser/ErrorGuard.cpp', 'opm/input/eclipse/Deck/DeckRecord.cpp', 'opm/input/eclipse/Deck/DeckItem.cpp', 'opm/input/eclipse/Deck/UDAValue.cpp',
             'opm/input/eclipse/Units/UnitSystem.cpp', 'opm/input/eclipse/Units/Dimension.cpp', 'opm/common/utility/String.cpp', 'opm/common/OpmLog/KeywordLocation.cpp', 'opm/input/eclipse/Parser/ParserEnums.cpp',
